@@ -279,11 +279,15 @@ PROBE_CMD(grid_actnum) {
         dump_grid(out, grid, false, false);
     } else if (route == "reset") {
         Opm::EclipseGrid grid(deck);
+        // actnum0: an earlier activity (e.g. another mask with the SAME number of active cells) under which the
+        // volume cache is filled before the final mask is set
+        if (jhas(req, "actnum0")) grid.resetACTNUM(jints(jget(req, "actnum0")));
         (void)grid.activeVolume();
         grid.resetACTNUM(actnum);
         dump_grid(out, grid, false, false);
     } else if (route == "copy") {
         Opm::EclipseGrid src(deck);
+        if (jhas(req, "actnum0")) src.resetACTNUM(jints(jget(req, "actnum0")));
         (void)src.activeVolume();
         Opm::EclipseGrid grid(src, actnum);
         dump_grid(out, grid, false, false);
